@@ -718,7 +718,7 @@ Qed.
 (* what a list must offer beyond refinement: a non-empty list hands out a node; memory that no range given to the list touches
    can be inserted; usable_size is monotone *)
 Hypothesis gprog_alloc : forall g s, GR g s -> 0 < gfree g -> exists g' x, gstep g UAlloc = Some (g', Some x).
-Hypothesis gprog_ins : forall g rs l m size, GR g {| us_rs := rs; us_l := l |} -> 0 < size ->
+Hypothesis gprog_ins : forall g rs l m size, GR g {| us_rs := rs; us_l := l |} -> 0 < size -> gns g <= gusable (gns g) size ->
   (forall x, In x rs -> 0 < snd (snd x) /\ (fst (snd x) + snd (snd x) <= m \/ m + size <= fst (snd x))) ->
   exists g', gstep g (UIns m size) = Some (g', None).
 Hypothesis gusable_mono_ns : forall ns ns' size, 0 <= size < 2^64 -> 0 < ns <= ns' -> ns' <= gusable ns' size -> ns <= gusable ns size.
@@ -773,7 +773,7 @@ Proof.
   pose proof (GR_pos _ _ Hgr) as Hpos. destruct (gusable_nodes ns m size ltac:(lia) Hus) as [Hnodes Hsize].
   destruct Hres as (b & rest & Hb & Hbm & Htop & Hal & Hdis).
   assert (Hfr : Fresh s sp) by apply Hcpr. destruct Hfr as (b' & rest' & Hb' & Htb & _). rewrite Hb in Hb'. inversion Hb'; subst b' rest'.
-  destruct (gprog_ins g (a_ranges sp) l m size Hgr Hsize) as (g' & Hs).
+  destruct (gprog_ins g (a_ranges sp) l m size Hgr Hsize ltac:(rewrite Eg; exact Hus)) as (g' & Hs).
   { intros x Hx. split; [apply (ranges_pos _ Hinv); exact Hx|]. destruct (Hdis x Hx); [left; assumption|right; lia]. }
   assert (Hins : cc_insert _ gns gstep gusable s ns m size = Some (cc_with _ s (cc_ar _ s) (cc_top _ s) (c_set g' (cc_lists _ s)), [EIns ns m size])).
   { unfold cc_insert. destruct (Z.leb_spec ns (gusable ns size)); [|lia]. unfold cc_list_step. rewrite Hf, Hs. reflexivity. }
